@@ -146,14 +146,20 @@ def _wrap_words(words, width):
 _CLONE_CACHE = {}
 
 
-def _clone(text, pos, width):
-    """(rows, cursor) of a FRESH edit box with this text and cursor offset (not the instance in the list)."""
-    key = (text, pos, width)
+def _clone(text, pos, width, focus=False):
+    """(rows, cursor) of a FRESH edit box with this text and cursor offset (not the instance in the list).
+
+    Oracle correction (false alarm on the first run): an edit box renders differently with and without
+    the focus - with the focus, a line whose cursor sits in the column after a full line is shifted so
+    the cursor is on screen ("a0x" at 3 columns shows "0x " + cursor).  "The item's rendering" is
+    therefore taken with the focus flag the list box must pass: `focus` for the focus item, False for
+    every other item."""
+    key = (text, pos, width, focus)
     r = _CLONE_CACHE.get(key)
     if r is None:
         c = urwid.Edit("", text, multiline=True)
         c.set_edit_pos(pos)
-        r = (list(c.render((width,), False).text), c.get_cursor_coords((width,)))
+        r = (list(c.render((width,), focus).text), c.get_cursor_coords((width,)))
         if len(_CLONE_CACHE) < 200000:
             _CLONE_CACHE[key] = r
     return r
@@ -164,19 +170,19 @@ def _static_lines(kind, label, width):
     return _wrap_words(_lines(label, 3), width) if h == "w" else _lines(label, h)
 
 
-def expected_rows(kind, label, width, edit_state=None):
+def expected_rows(kind, label, width, edit_state=None, focus=False):
     """Rows (bytes, padded to width) an item shows, from its description; edit boxes via a fresh clone."""
     if kind in ("z0", "zs"):
         return []
     if kind[0] == "e":
-        return _clone(edit_state[0], edit_state[1], width)[0]
+        return _clone(edit_state[0], edit_state[1], width, focus)[0]
     return [ln.encode().ljust(width) for ln in _static_lines(kind, label, width)]
 
 
 def expected_cursor(kind, label, width, edit_state):
     """(cx, cy) inside the item when it has the focus, or None."""
     if kind[0] == "e":
-        return _clone(edit_state[0], edit_state[1], width)[1]
+        return _clone(edit_state[0], edit_state[1], width, True)[1]
     if kind[0] == "i":
         # SelectableIcon: fixed cursor at a text offset; every line is followed by one separator
         off = kind_info(kind)[2] or 0
@@ -189,8 +195,10 @@ def expected_cursor(kind, label, width, edit_state):
 
 
 # ------------------------------------------------------------------------------------------- walkers
-class KeyWalker(urwid.ListWalker):
-    """A custom walker: positions are stable opaque keys (the item labels), not indices."""
+class MinimalWalker(urwid.ListWalker):
+    """A custom walker with exactly the documented "List Walker API Version 1" (get_focus, set_focus,
+    get_next, get_prev; `positions()` is documented as optional and is absent here).
+    Positions are stable opaque keys (the item labels), not indices."""
 
     def __init__(self, pairs):
         self.items = list(pairs)  # [(key, widget)]
@@ -208,7 +216,10 @@ class KeyWalker(urwid.ListWalker):
         return self.items[self._idx(self.focus_key)][1], self.focus_key
 
     def set_focus(self, key):
-        self._idx(key)
+        try:
+            self._idx(key)
+        except KeyError:
+            raise IndexError(f"no item at position {key!r}") from None  # the documented exception
         self.focus_key = key
         self._modified()
 
@@ -229,10 +240,6 @@ class KeyWalker(urwid.ListWalker):
         if i == 0:
             return None, None
         return self.items[i - 1][1], self.items[i - 1][0]
-
-    def positions(self, reverse=False):
-        ks = [k for k, _w in self.items]
-        return ks[::-1] if reverse else ks
 
     # mutation API used by the harness
     def insert(self, i, key, w):
@@ -259,10 +266,12 @@ class KeyWalker(urwid.ListWalker):
         self._modified()
 
 
-class MinimalWalker(KeyWalker):
-    """The documented minimum of the walker protocol: no positions()."""
+class KeyWalker(MinimalWalker):
+    """The same walker with the optional iteration helper."""
 
-    positions = None
+    def positions(self, reverse=False):
+        ks = [k for k, _w in self.items]
+        return ks[::-1] if reverse else ks
 
 
 # -------------------------------------------------------------------------------------------- world
@@ -313,9 +322,26 @@ class World:
             return (w.edit_text, w.edit_pos)
         return None
 
-    def rows_per_item(self):
+    def rows_per_item(self, focus_idx):
+        """-> list of admissible concatenation inputs (normally one).
+
+        Oracle correction (false alarm): an Edit that has LOST the focus may still render its
+        cursor-shifted line ("2x " instead of "b2x"): Edit.render(focus=False) goes through Text's cached
+        render, whose cache key ignores the focus flag, and finds the canvas drawn while it had the
+        focus (as long as the previous screen canvas is alive, which it is under a main loop and in this
+        harness).  `e.render((3,), False)` itself returns the shifted row in that state, so the list box
+        shows exactly "the item's rendering"; the fault is Edit's (reported separately, not a C07
+        failure).  For an edit box NOT in focus both renderings are therefore admissible."""
         width = self.size[0]
-        return [expected_rows(k, lab, width, self.edit_state(i)) for i, (k, lab) in enumerate(self.ref)]
+        base = [expected_rows(k, lab, width, self.edit_state(i), self.focus and i == focus_idx) for i, (k, lab) in enumerate(self.ref)]
+        variants = [base]
+        if self.focus:
+            for i, (k, lab) in enumerate(self.ref):
+                if k[0] == "e" and i != focus_idx:
+                    alt = expected_rows(k, lab, width, self.edit_state(i), True)
+                    if alt != base[i] and len(variants) < 8:
+                        variants += [[*v[:i], alt, *v[i + 1 :]] for v in variants]
+        return variants
 
     def apply(self, op):
         """Apply one operation to the real objects (and mirror list operations on the reference)."""
@@ -436,10 +462,15 @@ def run_history(cfg, ops):
                         got = _exc(e)
                     ok = got == click_expect
                     v["click-focus"] = (ok, "" if ok else f"pressed row {op[3]} showing selectable item #{click_expect} {wd.ref[click_expect]}, focus is item #{got}", True)
-        # render, as the main loop would after every input
+        # render, as the main loop would after every input (the canvas stays referenced until the next
+        # render, like the screen's copy under a main loop: the canvas cache only holds weak references)
         prev_base = None
+        is_last = n == len(steps) - 1
+        before_press = not is_last and steps[n + 1][0] == "click" and steps[n + 1][1] == 1
         try:
             canv = wd.lb.render(wd.size, wd.focus)
+            if not is_last and not before_press:
+                continue  # prefixes are judged as histories of their own
             R = tuple(canv.text)
             cursor = canv.cursor
             if canv.rows() != wd.size[1] or canv.cols() != wd.size[0] or len(R) != wd.size[1]:
@@ -460,14 +491,22 @@ def run_history(cfg, ops):
             v["focus-visible"] = (False, f"focus_position raised {_exc(e)}", True)
             fi = None
         obs["focus_item"] = fi
-        rpi = wd.rows_per_item()
+        variants = wd.rows_per_item(fi)
         cexp = None
         if fi is not None and wd.focus and wd.size[1] > 0:
             k, lab = wd.ref[fi]
             if kind_selectable(k):
                 cexp = expected_cursor(k, lab, wd.size[0], wd.edit_state(fi))
         blank = b" " * wd.size[0]
-        jv, base, (C, owner, _span) = lw.judge(list(R), rpi, blank, fi, cexp, cursor)
+        best = None
+        for rpi in variants:
+            cand = lw.judge(list(R), rpi, blank, fi, cexp, cursor)
+            nbad = sum(1 for x in cand[0].values() if not x[0])
+            if best is None or nbad < best[0]:
+                best = (nbad, cand)
+            if nbad == 0:
+                break
+        jv, base, (C, owner, _span) = best[1]
         for c, x in jv.items():
             v.setdefault(c, x)
         obs["list_rows"] = [r.decode() for r in C]
@@ -481,7 +520,7 @@ def run_history(cfg, ops):
 KEYS = ["up", "down", "page up", "page down", "home", "end", "x"]
 VALIGNS = ["top", "middle", "bottom", ["relative", 30]]
 NEW_KINDS = ["t1", "s3", "e1"]
-NEW_LABELS = "pqrsuvwy"
+NEW_LABELS = "pqrsuvwyABCDEFGHIJKLMNOPQRSTUVWXYZ"  # one fresh label per step of a history (never reused)
 
 
 def state_info(wd):
@@ -501,7 +540,10 @@ def gen_ops(info, depth_index, opts):
     ops.append(["click", 4, 0, 0])
     ops.append(["click", 5, 0, rows - 1])
     for i in range(n):
-        for cf in opts.get("coming_from", [None, "above", "below"]):
+        cfs = opts.get("coming_from", [None, "above", "below"])
+        if cfs == "truthful":  # None, and the direction the old focus really lies in
+            cfs = [None] if f is None or i == f else [None, "above" if i > f else "below"]
+        for cf in cfs:
             ops.append(["focus", i, cf])
     for va in opts.get("valigns", VALIGNS):
         ops.append(["valign", va])
@@ -511,7 +553,7 @@ def gen_ops(info, depth_index, opts):
     if rows + 1 <= hi:
         ops.append(["size", cols, rows + 1])
     ops.append(["size", WIDTHS[1] if cols == WIDTHS[0] else WIDTHS[0], rows])
-    lab = NEW_LABELS[depth_index % len(NEW_LABELS)]
+    lab = NEW_LABELS[depth_index]
     where = sorted({0, n} | ({f, f + 1} if f is not None else set()))
     for i in where:
         for k in opts.get("new_kinds", NEW_KINDS):
@@ -581,9 +623,12 @@ def record(tally, cfg, hist, res):
     v = res["verdicts"]
     obs = res["obs"]
     for clause, (ok, why, applicable) in v.items():
-        cls = obs.get("class") if clause in ("render-no-raise", "event-no-raise") and not ok else _why_class(clause, why)
+        cls = None
         if not ok:
-            cls = f"{cls} | last op {hist[-1][0] if hist else 'initial'}"
+            cls = obs.get("class") if clause in ("render-no-raise", "event-no-raise") else _why_class(clause, why)
+            last_op = "initial" if not hist else (f"key {hist[-1][1]}" if hist[-1][0] == "key" else hist[-1][0])
+            zero = any(k in ("z0", "zs") for k, _l in cfg["items"])
+            cls = f"{cls} | last op {last_op} | {'with' if zero else 'no'} 0-row item in the initial list"
 
         def detail(clause=clause, why=why):
             return {"clause": clause, "why": why, "cfg": cfg, "ops": hist, "rows_shown": obs.get("rows"), "cursor": obs.get("cursor"), "focus_item": obs.get("focus_item"), "list_rows": obs.get("list_rows")}
@@ -592,7 +637,7 @@ def record(tally, cfg, hist, res):
 
 
 def explore(task):
-    cfg, depth, opts = task
+    cfg, depth, opts = task[:3]
     warnings.simplefilter("ignore")
     tally = Tally()
     root = run_history(cfg, [])
@@ -645,48 +690,53 @@ CURATED = [
 ]
 
 
-def configs(tier):
-    out = []
-    walkers = ["slw", "sflw", "key"]
-    if tier == "quick":
-        sizes = [(3, 1), (3, 2), (3, 3), (9, 4), (3, 5)]
-        j = 0
-        for kinds in CURATED:
-            # every list on 2 box sizes (rotating) and one walker each (rotating), so that each walker and size
-            # meets every third list; the thorough tier takes the full product
-            for _r in range(2):
-                out.append(_cfg(kinds, sizes[j % len(sizes)], walkers[j % 3], True))
-                j += 1
-        out.append(_cfg(["s1", "t3", "s1"], (3, 2), "min", True))
-        out.append(_cfg(["t3", "e3.4", "t3"], (3, 2), "sflw", False))
-        out.append(_cfg(["s1", "t7", "e1.1"], (3, 3), "slw", False))
+SIZES_QUICK = [(3, 1), (3, 2), (3, 3), (9, 4), (3, 5)]
+SIZES_THOROUGH = [(3, 1), (3, 2), (3, 3), (3, 4), (9, 2), (9, 5)]
+WALKERS = ["slw", "sflw", "key"]
+# reduced alphabet for the deepest histories: inputs (keys, presses, wheel, resize), set_focus(pos), one alignment,
+# one kind of insertion, deletions; no replacements
+QUICK_OPTS = {"coming_from": "truthful", "new_kinds": ["t1", "s3"], "rep_kinds": ["s3"]}
+DEEP_OPTS = {"coming_from": [None], "valigns": ["bottom"], "new_kinds": ["s3"], "rep_kinds": []}
+
+
+def tasks_for(tier):
+    """-> [(cfg, depth, opts, weight)]"""
+    quick = tier == "quick"
+    tasks = []
+    full = QUICK_OPTS if quick else {}
+    # 1. curated lists, full alphabet
+    if quick:
+        for j, kinds in enumerate(CURATED):  # one box and one walker per list, rotating
+            tasks.append((_cfg(kinds, SIZES_QUICK[j % 5], WALKERS[j % 3]), 2, full, 10))
+        tasks.append((_cfg(["s1", "t3", "s1"], (3, 2), "min"), 2, full, 10))
+        tasks.append((_cfg(["t3", "e3.4", "t3"], (3, 2), "sflw", False), 2, full, 10))
+        tasks.append((_cfg(["s1", "t7", "e1.1"], (3, 3), "slw", False), 2, full, 10))
     else:
-        sizes = [(3, 1), (3, 2), (3, 3), (3, 4), (9, 2), (9, 5)]
-        for kinds in CURATED:
-            for s in sizes:
-                for w in walkers:
-                    out.append(_cfg(kinds, s, w, True))
+        for j, kinds in enumerate(CURATED):
+            for si, size in enumerate(SIZES_THOROUGH):
+                for wi, w in enumerate(WALKERS):
+                    deep = (si + wi * 2) % 6 == j % 6 and wi == j % 3  # one (box, walker) per list gets depth 3
+                    tasks.append((_cfg(kinds, size, w), 3 if deep else 2, {}, 400 if deep else 10))
         for kinds in CURATED[::4]:
-            out.append(_cfg(kinds, (3, 2), "min", True))
-            out.append(_cfg(kinds, (3, 3), "sflw", False))
-            out.append(_cfg(kinds, (9, 2), "key", False))
-    return out
-
-
-def all_short_lists_configs(tier):
-    """Every list of length <= 2 over ALL_KINDS (depth-limited): covers each pair of neighbours."""
-    out = []
-    kinds = ALL_KINDS
-    walkers = ["slw", "sflw", "key"]
+            tasks.append((_cfg(kinds, (3, 2), "min"), 2, full, 10))
+            tasks.append((_cfg(kinds, (3, 3), "sflw", False), 2, full, 10))
+            tasks.append((_cfg(kinds, (9, 2), "key", False), 2, full, 10))
+    # 2. every list of length 1 and 2 over ALL_KINDS (each pair of neighbours)
     j = 0
-    for a in kinds:
-        for b in [None, *kinds]:
+    for a in ALL_KINDS:
+        for b in [None, *ALL_KINDS]:
             ks = [a] if b is None else [a, b]
-            sizes = [(3, 2), (3, 4)] if tier == "quick" else [(3, 1), (3, 2), (3, 3), (9, 5)]
-            for s in sizes if tier != "quick" else [sizes[j % 2]]:
-                out.append(_cfg(ks, s, walkers[j % 3], True))
-                j += 1
-    return out
+            if quick:
+                tasks.append((_cfg(ks, [(3, 2), (3, 4)][j % 2], WALKERS[j % 3]), 2 if b is None else 1, full, 5 if b is None else 1))
+            else:
+                for size in [(3, 2), (3, 4)] if b is not None else [(3, 1), (3, 2), (3, 3), (9, 5)]:
+                    tasks.append((_cfg(ks, size, WALKERS[j % 3]), 2, {}, 7))
+            j += 1
+    # 3. deeper histories on the reduced alphabet
+    deep_lists = CURATED[12::10] if quick else CURATED[2::4]
+    for j, kinds in enumerate(deep_lists):
+        tasks.append((_cfg(kinds, (3, 2 + j % 2), WALKERS[j % 3]), 3 if quick else 4, DEEP_OPTS, 30 if quick else 500))
+    return tasks
 
 
 # ----------------------------------------------------------------------------------- random histories
@@ -759,39 +809,27 @@ def _result(name, rule, bound, exhaustive, total, clause, t0):
     }
 
 
-def tasks_for(tier):
-    quick = tier == "quick"
-    tasks = []
-    main_opts = {}
-    for cfg in configs(tier):
-        tasks.append((cfg, 2 if quick else 3, main_opts))
-    for cfg in all_short_lists_configs(tier):
-        tasks.append((cfg, 2, main_opts))
-    # deeper histories on a reduced alphabet (inputs only: keys, clicks, wheel, resize; no list edits)
-    deep_opts = {"coming_from": [None], "valigns": ["bottom"], "new_kinds": ["s3"], "rep_kinds": []}
-    deep_lists = CURATED[::5] if quick else CURATED[::2]
-    walkers = ["slw", "sflw", "key"]
-    for j, kinds in enumerate(deep_lists):
-        tasks.append((_cfg(kinds, (3, 2 + j % 2), walkers[j % 3], True), 3 if quick else 4, deep_opts))
-    return tasks
-
-
 def run(tier="quick", seed=0):
     t0 = time.time()
     procs = min(16, os.cpu_count() or 1)
     tasks = tasks_for(tier)
-    tasks.sort(key=lambda t: -(len(t[0]["items"]) + 3 * t[1]))
+    tasks.sort(key=lambda t: -t[3])
     total = Tally()
     for t in _pool_map(explore, tasks, procs):
         _merge(total, t)
     quick = tier == "quick"
+    ndeep3 = sum(1 for t in tasks if t[1] == 3 and not t[2])
+    ndeepr = sum(1 for t in tasks if t[2])
     bound = (
-        f"{len(tasks)} initial configurations: {len(CURATED)} curated lists of 0..4 items (kinds: Text / selectable Text / Edit / SelectableIcon of 1, 3, {TALL} rows and width-dependent height, 0-row items; Edit cursors on first/middle/last row) "
-        f"{'x 2 of 5 box sizes x 1 of 3 walkers (rotating)' if quick else 'x 6 box sizes x SimpleListWalker/SimpleFocusListWalker/custom key walker'}, plus every list of length <= 2 over {len(ALL_KINDS)} kinds; "
-        f"boxes {WIDTHS[0]} or {WIDTHS[1]} columns x 1..6 rows; all histories of <= {2 if quick else 3} operations "
-        f"(deeper: <= {3 if quick else 4} on {len(CURATED[::5] if quick else CURATED[::2])} lists with a reduced alphabet) over: keys {KEYS}, button-1 press on every row, wheel up/down, "
-        f"set_focus(every position, None/above/below), set_focus_valign(top/middle/bottom/relative 30), rows+-1, width toggle, insert (3 kinds at top/focus/after focus/end), delete (every index), replace (focus and neighbours, 2 kinds); "
-        f"render after every operation; histories merged on the complete state signature; {total.states} distinct states, {total.steps} operation+render steps executed"
+        f"{len(tasks)} initial configurations = {len(CURATED)} curated lists of 0..4 items "
+        f"{'x one box and one walker each (rotating over 5 boxes, 3 walkers)' if quick else 'x 6 boxes x 3 walkers'} + every list of 1 and 2 items over {len(ALL_KINDS)} kinds "
+        f"(Text / selectable Text / Edit / SelectableIcon of 1, 3, {TALL} rows and width-dependent height; 0-row items; cursors on first/middle/last row) + a few with a positions()-less walker or rendered without focus; "
+        f"walkers SimpleListWalker, SimpleFocusListWalker, custom key walker; boxes {WIDTHS[0]} or {WIDTHS[1]} columns x 1..6 rows. "
+        f"ALL histories of <= 2 operations{' (1 for the two-item lists)' if quick else ''}"
+        f"{'' if quick else f', <= 3 on {ndeep3} of them'}, and <= {3 if quick else 4} on {ndeepr} lists with a reduced alphabet, over: keys {'/'.join(KEYS)}, button-1 press on every row, wheel up/down, "
+        f"set_focus(every position; coming_from {'None or the true direction' if quick else 'None/above/below'}), set_focus_valign(top/middle/bottom/relative 30), rows+-1, width toggle, "
+        f"insert ({2 if quick else 3} kinds at top/focus/after focus/end), delete (every index), replace (focus and neighbours, {1 if quick else 2} kind(s)); "
+        f"render after every operation; histories merged when they reach the same complete state signature; measured: {total.states} distinct states, {total.steps} operation+render steps"
     )
     checks = [_result(f"{ID}/{c}", RULES[c], bound, True, total, c, t0) for c in CLAUSES]
     t1 = time.time()
